@@ -399,6 +399,9 @@ pub struct Exec {
     /// a changeset whose base equals the current state only because intervening commits were
     /// rolled back (same content, different history) has been accepted
     pub aba_accepted: bool,
+    /// no reads between the operations: the audit runs only once, after the last operation
+    /// (every audit warms the caches the next operation would otherwise find cold)
+    pub quiet: bool,
 }
 
 fn viol(fp: &str, msg: String) -> Violation {
@@ -421,6 +424,9 @@ impl Exec {
     }
 
     pub fn audit(&mut self, when: &str) -> Result<(), Violation> {
+        if self.quiet {
+            return Ok(());
+        }
         self.out.transitions += 1;
         let d = self.state_digest();
         self.out.states.push(d);
@@ -1212,6 +1218,7 @@ impl HistX {
             out: Outcome::default(),
             trace: vec![],
             aba_accepted: false,
+            quiet: case["quiet"].as_bool().unwrap_or(false),
         }
     }
 
@@ -1222,6 +1229,10 @@ impl HistX {
             ex.audit("after opening the seed state")?;
             for (i, op) in case["ops"].as_array().unwrap().iter().enumerate() {
                 ex.step(i, op)?;
+            }
+            if ex.quiet {
+                ex.quiet = false;
+                ex.audit("after the last operation (no reads in between)")?;
             }
             if case["final_reopen"].as_bool().unwrap_or(false) {
                 ex.step(9999, &json!({"reopen": {}}))?;
@@ -1352,6 +1363,36 @@ pub fn with_control_everywhere(cases: &[Value], control: &Value) -> Vec<Value> {
         }
     }
     out
+}
+
+/// Adds, for every history that starts from a non-empty seed state or reopens the store, a copy
+/// that performs no reads between its operations (`quiet`): the per-step audit warms the leaf and
+/// page caches, so only the quiet copy lets an operation meet the caches as a reopen left them.
+/// `every` thins the copies out (1 = all).
+pub fn add_quiet(cases: &mut Vec<Value>, every: usize) {
+    let mut extra = vec![];
+    let mut k = 0usize;
+    for c in cases.iter() {
+        if c.get("mode").is_some() || c.get("harness").is_some() || c.get("ops").is_none() {
+            continue;
+        }
+        let ops = c["ops"].as_array().unwrap();
+        if ops.is_empty() {
+            continue;
+        }
+        let reopens = ops.iter().any(|o| o.get("reopen").is_some());
+        if c["seed"].as_str().unwrap_or("empty") == "empty" && !reopens {
+            continue;
+        }
+        k += 1;
+        if k % every != 0 {
+            continue;
+        }
+        let mut q = c.clone();
+        q["quiet"] = json!(true);
+        extra.push(q);
+    }
+    cases.extend(extra);
 }
 
 /// Order: by bound (deviation count) first; within a bound the small, targeted families (few
